@@ -4,6 +4,7 @@ import (
 	"fmt"
 	"sort"
 	"strings"
+	"sync/atomic"
 	"time"
 
 	mvp1 "github.com/teivah/majorana/proc/mvp1"
@@ -245,8 +246,10 @@ func RunApp(cfg Config, app risc.Application, init InitState, budget int64) (res
 		ctx.Registers[regByName(r)] = v
 	}
 	var ticks int64
+	var progress atomic.Int64 // ticks, readable by the watchdog
 	ctx.SetVerifHooks(&risc.VerifHooks{Tick: func(int) {
 		ticks++
+		progress.Store(ticks)
 		if ticks > budget {
 			panic(budgetExceeded{})
 		}
@@ -269,11 +272,21 @@ func RunApp(cfg Config, app risc.Application, init InitState, budget int64) (res
 			res.Err = err.Error()
 		}
 	}()
-	select {
-	case <-done:
-	case <-time.After(60 * time.Second):
-		// blocked without spinning (e.g. a full channel): the goroutine is leaked
-		return RunResult{Blocked: true}
+	// blocked = no simulated cycle for 60 s of wall-clock time (e.g. a full channel): independent of how
+	// slow a loaded machine makes a long run, which the (deterministic) tick budget bounds
+	last := int64(-1)
+wait:
+	for {
+		select {
+		case <-done:
+			break wait
+		case <-time.After(60 * time.Second):
+			now := progress.Load()
+			if now == last {
+				return RunResult{Blocked: true} // the goroutine is leaked
+			}
+			last = now
+		}
 	}
 	res.Ticks = ticks
 	res.Regs = map[string]int32{}
